@@ -32,7 +32,7 @@ impl Mutator for StringLengthMutator {
         source: &mut GenerationSource,
         rate: f64,
     ) -> Option<String> {
-        if source.gen_f64() > rate {
+        if !source.should_mutate(rate) {
             return None;
         }
 
@@ -69,7 +69,7 @@ impl Mutator for StringLengthMutator {
         source: &mut GenerationSource,
         rate: f64,
     ) -> Option<Vec<u8>> {
-        if source.gen_f64() > rate {
+        if !source.should_mutate(rate) {
             return None;
         }
 
